@@ -51,6 +51,16 @@ class Ranges:
                         ds[0][2][1]["op"].endswith("WithOverflow"):
                     r = self.rvalue_range(ds[0][2][1], depth + 1, exact=True)
                     return self._meet(r, tyr)
+            # field of a local that is built once as an aggregate (argument tuple of a closure call, struct literal)
+            if len(p["proj"]) == 1 and p["proj"][0][0] == "field" and p["l"] not in self.d.partial \
+                    and p["l"] not in self.d.mut_borrowed:
+                ds = self.d.whole.get(p["l"], [])
+                if len(ds) == 1 and ds[0][2][0] == "assign" and ds[0][2][1]["k"] == "agg" and \
+                        ds[0][2][1].get("ak") in ("tuple", "adt") and not ds[0][2][1].get("vidx"):
+                    ops = ds[0][2][1]["ops"]
+                    i = p["proj"][0][1]
+                    if isinstance(i, int) and i < len(ops):
+                        return self._meet(self.op_range(ops[i], depth + 1), tyr)
             return tyr
         l = p["l"]
         if l in self._memo:
